@@ -15,8 +15,8 @@ import vlib
 
 EXPLANATION = (
     "gammaSq, plasmaVelocity, temperatureProfileEqLHS, deltaToTmunu, the WHOLE of "
-    "findPlasmaProfilePoint (bracket-search loop included) and the tail of "
-    "findHydroBoundaries are regenerated from the source by the pyrx-based translator on "
+    "findPlasmaProfilePoint (bracket-search loop included), the grid loop of findPlasmaProfile "
+    "(success flag) and the tail of findHydroBoundaries are regenerated from the source by the pyrx-based translator on "
     "every run. Coq proves, for every potential / particle content / moments: the "
     "generated velocity is the unique subluminal solution of w g^2 v = s1; the T33 "
     "residual at (T, v(T)) IS the generated LHS; deltaToTmunu is the (3,0),(3,3) momentum "
@@ -24,7 +24,9 @@ EXPLANATION = (
     "(T+,-v+) and (T-,-v-) solve both equations with the constants of "
     "findHydroBoundaries; the point solver always terminates and returns the minimiser / "
     "(0,0) / a root in the FIRST sign-change bracket of the geometric sequence on the "
-    "side selected by |Tn-T+|<1e-10; on the root path both components are conserved. "
+    "side selected by |Tn-T+|<1e-10; on the root path both components are conserved; the "
+    "success flag is true exactly when no point returned (0,0), so 'success => T33' is "
+    "REFUTED by a witness (no root: the minimiser is returned), replayed on the code. "
     "Model values are compared with the implementation (on stub collaborators) by "
     "certified interval evaluation, including the decision path; the property is "
     "evaluated directly on EOM.findPlasmaProfile for real models on all three branches.")
@@ -556,8 +558,13 @@ def run_profile(name, vw, widths, offsets, shape, seed, amp, errTol=1e-6):
                                                          else "deflagration")
     wp = WallParams(widths=np.array(widths[:nf]) / TN, offsets=np.array(offsets[:nf]))
     eom._updateGrid(wp, vMid)               # pylint: disable=protected-access
-    phiLow = thermo.freeEnergyLow(Tm).fieldsAtMinimum
-    phiHigh = thermo.freeEnergyHigh(Tp).fieldsAtMinimum
+    try:
+        phiLow = thermo.freeEnergyLow(Tm).fieldsAtMinimum
+        phiHigh = thermo.freeEnergyHigh(Tp).fieldsAtMinimum
+    except Exception as ex:                      # noqa: BLE001  (T- or T+ outside the traced phase)
+        out["nohydro"] = True
+        out["why"] = repr(ex)[:80]
+        return out
     fields, dPhidz = eom.wallProfile(grid.xiValues, phiLow, phiHigh, wp)
     z = np.asarray(grid.xiValues)
     n = len(z)
@@ -783,7 +790,7 @@ def direct_validation(ctx):
         else:
             vws = [rng.uniform(max(hydro.vMin, 0.05) + 0.02, cs - 0.02) for _ in range(nd)]
         # (quartic1: the broken phase ends at its spinodal; stay where T- is tabulated)
-        hyb_hi = min(vJ - 0.004, cs + 0.03) if name == "quartic1" else vJ - 0.004
+        hyb_hi = min(vJ - 0.004, cs + 0.02) if name == "quartic1" else vJ - 0.004
         vws += [rng.uniform(cs + 0.004, hyb_hi) for _ in range(nh)]
         vws += [rng.uniform(vJ + 0.01, 0.95) for _ in range(nt)]
         for vw in vws:
@@ -844,24 +851,36 @@ def direct_validation(ctx):
 # =====================================================================================
 
 def replay_model_witness(ctx):
-    """the generated model returns the minimiser with T>0 when the LHS has no root
-    (theorem no_root_returns_minimum); same on the implementation, stub collaborators"""
+    """Witness of theorem success_implies_T33_refuted (radiation V=-T^4, no moments, c1=-1,
+    c2=1/4, one grid point) on the implementation: stub collaborators, the real
+    findPlasmaProfile loop, the real scipy minimiser."""
+    from WallGo import Fields
     case = dict(pot=[Fraction(1), Fraction(0), Fraction(0)], Tn=Fraction(1),
-                particles=[[12, Fraction(0), 0, Fraction(0)]], fields=[Fraction(0), Fraction(0)],
+                particles=[], fields=[Fraction(0), Fraction(0)],
                 dPhidz=[Fraction(0), Fraction(0)], index=0, vmid=Fraction(0))
     for nm in ("Delta00", "Delta02", "Delta20", "Delta11"):
         case[nm] = [[Fraction(0)]]
     eom = stub_eom(case)
-    fp = field_point(case["fields"])
+    eom.grid = types.SimpleNamespace(xiValues=np.array([0.0]))
+    eom.successTemperatureProfile = None
+    fl = Fields([0.0, 0.0])
+    fp = fl.getFieldPoint(0)
     with Recorder() as rec:
-        T, v = eom.findPlasmaProfilePoint(0, -1.0, 0.25, 0.0, fp, fp, stub_deltas(case), 1.0, 1.0)
-    lhs = eom.temperatureProfileEqLHS(fp, fp, T, -1.0, 0.25)
+        T, v = eom.findPlasmaProfile(-1.0, 0.25, 0.0, fl, fl, stub_deltas(case), 1.0, 1.0)
+    T, v = float(T[0]), float(v[0])
+    w = -T * eom.thermo.effectivePotential.derivT(fp, T)
+    res = -eom.thermo.effectivePotential.evaluate(fp, T) + w * v * v / (1 - v * v) - 0.25
     ctx.count("model_witness_replayed", nontrivial=False)
-    ctx.log("no-root witness on the implementation: path=%s T=%.6g v=%.6g LHS(T)=%.4g "
-            "(T>0: the caller counts this as success)" % (rec.points[-1]["path"], T, v, lhs))
-    if not (rec.points[-1]["path"] == "early" and T > 0 and lhs > 0):
-        ctx.broken.append("correspondence: implementation does not follow "
-                          "no_root_returns_minimum on the witness")
+    ctx.log("refutation witness on the implementation: path=%s success=%s T=%.6g v=%.6g, "
+            "T33 residual %.4g (LHS there %.4g)" % (
+                rec.points[-1]["path"], eom.successTemperatureProfile, T, v, res,
+                rec.points[-1]["fmin"]))
+    if rec.points[-1]["path"] == "early" and eom.successTemperatureProfile is True and T > 0 \
+            and res > 1e-3:
+        return dict(kind="witness", c1=-1.0, c2=0.25, potential="V=-T^4", T=T, v=v, residual=res)
+    ctx.broken.append("correspondence: the implementation does not follow the model on the "
+                      "witness of success_implies_T33_refuted")
+    return None
 
 
 def run(ctx):
@@ -884,7 +903,7 @@ def run(ctx):
                     "Interval tactic (certified evaluation)"]
     try:
         stub_correspondence(ctx, proved)
-        replay_model_witness(ctx)
+        ctx.cov["refutation_witness_on_implementation"] = replay_model_witness(ctx)
     except Exception as ex:                              # noqa: BLE001
         import traceback
         ctx.log("stub correspondence raised", traceback.format_exc())
